@@ -136,6 +136,74 @@ def classify(ops, sigma, endian, memtrace):
     return None
 
 
+def restore_part(run, quick):
+    """constant stores through one pointer with repeated and overlapping addresses (no-aliasing mode, little-endian): the
+    ordered map's entries and the memory bytes vs the Gallina model coq/C09/Restore.v and vs last-write-wins"""
+    cx = c01.Ctx()
+    E = cx.E
+    cx.conf.Cas.noaliasing, cx.conf.Cas.memtrace = True, True
+    rng = random.Random(run.seed * 6007 + 9)
+    p = E.reg("p", 32)
+    rows = []
+    for it in range(400 if quick else 8000):
+        prog = []
+        offs = [rng.randrange(0, 7) for _ in range(rng.randrange(1, 4))]
+        m = cx.mapper()
+        for _ in range(rng.randrange(1, 8)):
+            o = rng.choice(offs)
+            sz = rng.choice([1, 2, 4])
+            val = [rng.getrandbits(8) for _ in range(sz)]
+            prog.append((o, val))
+            m[E.mem(p, 8 * sz, disp=o)] = E.cst(int.from_bytes(bytes(val), "little"), 8 * sz)
+        run.count(("restore", repr(prog)), nontrivial=len({o for o, _ in prog}) < len(prog))
+        try:
+            ents = []
+            for loc, v in m:
+                if loc._is_ptr:
+                    v = v.simplify()
+                    if not v._is_cst:
+                        raise ValueError("entry value %s" % v)
+                    ents.append((loc.disp, list((v.v & ((1 << v.size) - 1)).to_bytes(v.size // 8, "little"))))
+            obs = []
+            for a in range(-1, 12):
+                r = m[E.mem(p, 8, disp=a)].simplify()
+                obs.append((a, (r.v & 0xFF) if r._is_cst else -1))
+        except Exception as x:
+            run.violation("restore|raised|" + type(x).__name__, "reading back a map of constant stores raised %r" % (x,), {"stores": prog})
+            continue
+        want = []
+        for a in range(-1, 12):
+            c = -1
+            for o, val in prog:
+                if o <= a < o + len(val):
+                    c = val[a - o]
+            want.append((a, c))
+        if obs != want:
+            k = next(i for i in range(len(obs)) if obs[i] != want[i])
+            run.violation("restore|memory-byte", "after the stores %s the map reads %d at p%+d, last-write-wins gives %d" % (prog, obs[k][1], obs[k][0], want[k][1]),
+                          {"stores": prog, "read": obs, "expected": want})
+            continue
+        st = lambda d: clist(["(%d, %s)" % (o, clist(map(str, val))) for o, val in d])
+        rows.append("(%s, %s, %s)" % (st(prog), st(ents), clist(["(%d, (%d))" % ab for ab in obs])))
+    shards = [rows[i:i + 300] for i in range(0, len(rows), 300)]
+    texts = [("rs_%03d" % i, "From Coq Require Import ZArith List.\nImport ListNotations.\nRequire Import Amoco.C09.Restore.\nOpen Scope Z_scope.\n"
+              "Definition cases : list rs_case := [\n%s\n].\nEval vm_compute in (bad_from check_rs 0 cases).\n" % ";\n".join(sh)) for i, sh in enumerate(shards)]
+    res = common.coq_eval_many(run.work / "rs", texts)
+    n_ok = 0
+    for i, sh in enumerate(shards):
+        rc, out = res["rs_%03d" % i]
+        lists = common.parse_nat_list(out)
+        if rc != 0 or len(lists) != 1:
+            run.violation("model-eval|restore", "re-store model evaluation failed", {"theorem_or_correspondence": "Amoco.C09.Restore.check_rs shard %d" % i, "output": out[-800:]}, found_input=False)
+            continue
+        n_ok += len(sh)
+        for k in lists[0][:3]:
+            run.violation("model-impl-correspondence|restore", "ordered-map entries / memory after repeated stores differ from the model",
+                          {"theorem_or_correspondence": "Amoco.C09.Restore.check_rs / C09_replay_with_repeated_stores", "case(program,entries,bytes)": sh[k][:900]}, found_input=True)
+    run.cov["restore_programs_in_coq"] = n_ok
+    return n_ok
+
+
 def check(run):
     quick = run.tier == "quick"
     run.cov["rule"] = ("load/store program (2..9 ops over pointers p,q,r with displacements -8..8 and access sizes 1..8 bytes, register or "
@@ -224,6 +292,7 @@ def check(run):
             run.violation("model-impl-correspondence|ordered-map", "ordered store map differs from the model (key order / sizes)",
                           {"theorem_or_correspondence": "Amoco.C09.Model.check_om", "stores": sh[k][0], "observed_keys": sh[k][1]}, found_input=False)
     run.cov["ordered_maps_in_coq"] = n_ok
+    n_ok += restore_part(run, quick)
     run.cov["traces_validated_against_impl"] = n_ok
     run.cov["trusted_base"] += ["harness/c09.py program driver, bytearray reference and pointer-assignment lattice"]
     run.assumptions += ["values are modelled as byte strings (expression-level content of stores is C01/C08's subject)"]
